@@ -390,6 +390,7 @@ def denote(shape, rec, mults=None):
     nodes = []
     edges = {}
     first_of = {}   # v -> node index (for ring bonds; only meaningful for non-multiplied nodes)
+    occ = {}        # v -> node indices of all copies (ring bonds inside a multiplied unit exist once per copy)
     nf = rec.get('numform', 'sd.d')
 
     def new_node(el):
@@ -405,6 +406,7 @@ def denote(shape, rec, mults=None):
         nodes.append(attrs)
         idx = len(nodes) - 1
         first_of.setdefault(el['v'], idx)
+        occ.setdefault(el['v'], []).append(idx)
         return idx
 
     def link(a, b, order):
@@ -433,7 +435,12 @@ def denote(shape, rec, mults=None):
         return prev
     walk(shape['chain'], None)
     for r, (a, b, _kind, _ro) in enumerate(shape['rings']):
-        edges[frozenset((first_of[a], first_of[b]))] = sym2ord(rec['rord'][r])
+        if len(occ[a]) == len(occ[b]):
+            # both ends in the same multiplied unit (or in none): one ring bond per copy of the unit
+            for ia, ib in zip(occ[a], occ[b]):
+                edges[frozenset((ia, ib))] = sym2ord(rec['rord'][r])
+        else:
+            edges[frozenset((first_of[a], first_of[b]))] = sym2ord(rec['rord'][r])
     return nodes, edges
 
 
